@@ -218,6 +218,13 @@ def replay_group(args):
         param = {"datapath": datapath}
         raised = None
         for n, op in enumerate(hist):
+            if n == len(hist) - 1:
+                # reads and saves interleave in real use: look at the store before the last save (the result is not examined here;
+                # what was true before a save must not stick to later reads)
+                try:
+                    R.read_data(dict(param), it=[0, 5, 10, 20, 30], vars=[], rl=op["rl"])
+                except Exception:
+                    pass
             data = make_dict(op["d"], dicts)
             it_arg = list(op["it"])
             vars_arg = list(op["vars"])
